@@ -86,6 +86,43 @@ func (vc *VC) errIs(err Val, target Val) string {
 }
 
 func registerExterns() {
+	// DecodeOption values: functions that configure the options they are given
+	optName := "dyncall:func(*" + modPath + ".decodeOptions)"
+	optTargets := func(vc *VC, d *PtrDesc) []locTarget { return vc.descTargets(d) }
+	externTable[optName] = func(vc *VC, fr *Frame, st *State, call *ssa.CallCommon, args []Val, rt types.Type) Val {
+		vc.trusted["a DecodeOption only writes the decodeOptions value it is given, does not panic and terminates"] = true
+		d, ok := vc.ifacePtr[args[1].L[0]]
+		if !ok {
+			p := args[1]
+			d = &PtrDesc{Root: rObj, Ref: p.L[0], RootT: deref(p.T), T: deref(p.T)}
+		}
+		vc.havocTargets(st, optTargets(vc, d))
+		return Val{T: rt}
+	}
+	externTable["dyncall:"+modPath+".DecodeOption"] = externTable[optName]
+	defer func() { externEffectTable["dyncall:"+modPath+".DecodeOption"] = externEffectTable[optName] }()
+	externEffectTable[optName] = func(vc *VC, cc *ssa.CallCommon) []locTarget {
+		// options live inside the decoder: all option leaves, any object
+		var out []locTarget
+		for _, a := range cc.Args {
+			if fa, ok := a.(*ssa.FieldAddr); ok {
+				stt := deref(fa.X.Type()).Underlying().(*types.Struct)
+				d := &PtrDesc{Root: rObj, Ref: "?", RootT: deref(fa.X.Type()), Path: stt.Field(fa.Field).Name(), T: stt.Field(fa.Field).Type()}
+				if vc.effFrame != nil {
+					if v, ok := vc.effFrame.vals[fa.X]; ok && len(v.L) == 1 {
+						d.Ref = v.L[0]
+						out = append(out, vc.descTargets(d)...)
+						continue
+					}
+				}
+				for _, t := range vc.descTargets(d) {
+					t.whole, t.key = true, ""
+					out = append(out, t)
+				}
+			}
+		}
+		return out
+	}
 	// ---- fmt / errors ------------------------------------------------------
 	externTable["fmt.Errorf"] = func(vc *VC, fr *Frame, st *State, call *ssa.CallCommon, args []Val, rt types.Type) Val {
 		vc.trusted["fmt.Errorf: total, fresh non-nil *fmt.wrapError result; errors.Is(result, t) iff errors.Is(wrapped %w operand, t)"] = true
@@ -238,6 +275,11 @@ func (vc *VC) ghostCall(st *State, name string, args []Val, sig *types.Signature
 		// reader model invariant: positions are non-negative and streams are shorter than 2^50 bytes
 		vc.trusted[readerAssumption] = true
 		vc.script = append(vc.script, fmt.Sprintf("(assert (and (bvsle (_ bv0 64) %s) (bvslt %s (_ bv%d 64))))", term, term, uint64(1)<<50))
+		if len(args[0].L) == 2 {
+			vc.streamFns()
+			vc.script = append(vc.script, fmt.Sprintf("(assert (and (bvsle %s %s) (bvsle %s %s) (bvslt %s (_ bv%d 64)) (bvslt %s (_ bv%d 64))))", term, vc.eofPos(args[0]), term, vc.faultPos(args[0]),
+				vc.eofPos(args[0]), uint64(1)<<50, vc.faultPos(args[0]), uint64(1)<<50))
+		}
 	}
 	return Val{T: rt, L: []string{term}}, nil
 }
